@@ -5,6 +5,7 @@ import (
 	"fmt"
 	"math"
 	"math/big"
+	"sort"
 	"strconv"
 	"strings"
 	"testing"
@@ -651,6 +652,26 @@ func TestC09Cli(t *testing.T) {
 		Gen: func(t *rapid.T, thorough bool) CliCase {
 			trees := genCollection(t, false, 1)
 			c := CliCase{Trees: trees, Cutoff: cutoff(t, len(trees)), OmitF: rapid.IntRange(0, 3).Draw(t, "omitf") == 0}
+			if !c.OmitF && rapid.IntRange(0, 3).Draw(t, "nearcount") == 0 {
+				// a threshold typed with eight or nine decimals, just above or below the frequency of a split
+				// that is in the collection (the option is a text that the command turns into a number)
+				if _, table, trivial, err := expectedTable(trees); err == nil {
+					var counts []int
+					for k, e := range table {
+						if !trivial[k] && 2*e.count >= len(trees) {
+							counts = append(counts, e.count)
+						}
+					}
+					sort.Ints(counts)
+					if len(counts) > 0 {
+						k := counts[rapid.IntRange(0, len(counts)-1).Draw(t, "nearcountk")]
+						d := rapid.SampledFrom([]float64{1e-8, -1e-8, 3e-8, -3e-8, 2e-9, -2e-9}).Draw(t, "nearcountd")
+						if f := float64(k)/float64(len(trees)) + d; f >= 0.5 && f <= 1 {
+							c.Cutoff = f
+						}
+					}
+				}
+			}
 			if !c.OmitF && rapid.IntRange(0, 7).Draw(t, "badcut") == 3 {
 				c.Cutoff = rapid.SampledFrom([]float64{0.3, 0.49, 0, -1, 1.0001, 1.5, 2, 30, 50, 60, 75, 100, 150}).Draw(t, "cutbad")
 			}
